@@ -23,6 +23,7 @@ ap.add_argument("--workers", type=int, default=3)
 ap.add_argument("--seed", type=int, default=1)
 ap.add_argument("--files", default="")
 ap.add_argument("--check-killed", action="store_true", help="also run the check on mutants the test suite kills")
+ap.add_argument("--rerun", default="", help="re-run the recorded mutants with these statuses (comma separated) and replace their records")
 args = ap.parse_args()
 
 
@@ -35,6 +36,7 @@ def sh(cmd, timeout=None, env=None):
 
 
 RANGES = {}
+FIRST = {}
 
 
 def anchored_files(prop):
@@ -217,6 +219,25 @@ def main():
             d = json.loads(ln)
             done.add((d["file"], d["line"], d["new"]))
     todo = [c for c in order if (c[0], c[1] + 1, c[4].strip()) not in done]
+    replaced = set()
+    if args.rerun:
+        want = set(args.rerun.split(","))
+        todo = []
+        for ln in open(outpath):
+            d = json.loads(ln)
+            if d["status"] in want:
+                src = open(os.path.join(REPO, d["file"]), errors="replace").read().split("\n")
+                cur = src[d["line"] - 1]
+                if cur.strip() != d["old"]:
+                    print("skip (source moved):", d["file"], d["line"])
+                    continue
+                indent = re.match(r"^\s*", cur).group(0)
+                todo.append((d["file"], d["line"] - 1, d["kind"], cur, indent + d["new"]))
+                replaced.add((d["file"], d["line"], d["new"]))
+                FIRST[(d["file"], d["line"], d["new"])] = d.get("first_status", d["status"])
+        keep = [ln for ln in open(outpath) if (lambda d: (d["file"], d["line"], d["new"]) not in replaced)(json.loads(ln))]
+        with open(outpath, "w") as fh:
+            fh.writelines(keep)
     q = queue.Queue()
     for c in todo:
         q.put(c)
@@ -232,6 +253,9 @@ def main():
                 except queue.Empty:
                     return
                 rec = run_mutant(wt, c)
+                if args.rerun:
+                    rec["rerun"] = True
+                    rec["first_status"] = FIRST.get((rec["file"], rec["line"], rec["new"]), rec["status"])
                 with lock:
                     counts[rec["status"]] = counts.get(rec["status"], 0) + 1
                     with open(outpath, "a") as fh:
